@@ -89,6 +89,11 @@ def frame(buf: bytes, closed: bool, methods: list):
         method = methods[idx] if idx < len(methods) else None
         xreq = hdrs.get(b"x-req", [None])[0]
         ent = {"status": status, "xreq": None if xreq is None else xreq.decode("latin1"), "done": False, "body": None}
+        if status == 101:
+            # protocol switched: what follows is not HTTP
+            ent["done"], ent["body"], ent["after"] = True, b"", buf[body_start:]
+            out.append(ent)
+            return out, None
         if 100 <= status < 200:
             pos = body_start
             continue
@@ -216,6 +221,8 @@ class Conn:
         self.ka, self.linger = ka, linger
         self.honour_pause = honour_pause
         self.invoke_limit = 400
+        self.ws_received: list = []
+        self.closed_at_invoked = None     # handler invocations at the moment close() (pre_shutdown) was called
         self.runaway = False
         self.shadow_heads = 0
         self.order_log: list = []
@@ -344,6 +351,16 @@ class Conn:
         text = "r%s" % key
         if b.get("block"):
             await self.gate()
+        if kind == "ws":
+            from aiohttp import WSMsgType
+            ws = web.WebSocketResponse()
+            await ws.prepare(request)
+            while True:
+                msg = await ws.receive()
+                self.ws_received.append([msg.type.name, msg.data if isinstance(msg.data, str) else None])
+                if msg.type in (WSMsgType.CLOSE, WSMsgType.CLOSING, WSMsgType.CLOSED, WSMsgType.ERROR):
+                    break
+            return ws, "Fs"
         if kind == "ok":
             return web.Response(text=text, headers=hdr), "Fr1200"
         if kind == "fclose":
@@ -493,6 +510,12 @@ class Conn:
         elif k == "drain":
             self.drain()
             return
+        elif k == "close":
+            # Server.pre_shutdown(): conn.close() -- only while a handler is in flight (the idle case is C20's finding)
+            if self.active is None or self.tr.closed:
+                return
+            self.closed_at_invoked = self.invoked
+            self.proto.close()
         elif k == "peer":
             if self.tr.closed:
                 return
@@ -618,6 +641,39 @@ def oracle(conn: Conn, expect_heads: int | None, drained: bool):
         if expect_heads is not None and conn.parse_errors == 0 and not conn.pending and conn.handled < expect_heads:
             bad.append(("orphaned", f"the peer sent {expect_heads} complete requests, only {conn.handled} reached a handler, "
                                     "nothing is running and the connection is open"))
+    case = getattr(conn, "case", {}) or {}
+    quiet = drained and not conn.pending
+    # accepted upgrade: nothing behind the handshake is HTTP any more
+    sw = next((r for r in resps if r.get("status") == 101), None)
+    if sw is not None:
+        wskeys = [int(k) for k, b in conn.beh.items() if b.get("kind") == "ws"]
+        pos = next((i for i, k in enumerate(conn.order_log) if k in wskeys), None)
+        if pos is not None and len(conn.order_log) > pos + 1:
+            bad.append(("upgrade", f"requests {conn.order_log[pos + 1:][:5]} were handled after the connection was upgraded (101 sent)"))
+        if sw.get("after", b"").startswith(b"HTTP/"):
+            bad.append(("upgrade", f"an HTTP response follows the 101: {sw['after'][:40]!r}"))
+        if conn.parse_errors:
+            bad.append(("upgrade", "bytes behind an accepted handshake were run through the HTTP request parser (it raised)"))
+        if quiet and "ws_texts" in case:
+            got = [d for t, d in conn.ws_received if t == "TEXT"]
+            if got != case["ws_texts"]:
+                bad.append(("upgrade", f"frames sent behind the accepted handshake: {case['ws_texts']}, the WebSocket received {conn.ws_received}"))
+        if quiet and case.get("ws_junk") and not conn.ws_received:
+            bad.append(("upgrade", "bytes sent behind the accepted handshake never reached the WebSocket reader"))
+    if drained and case.get("expect_400_last") and conn.parse_errors:
+        last = next((r for r in reversed(resps) if r["done"]), None)
+        if not closed or last is None or last["status"] != 400:
+            bad.append(("no-4xx-close", f"the parser rejected the input; connection closed={closed}, last complete response "
+                                        f"{None if last is None else last['status']} (must be the 400)"))
+    for k in case.get("forbidden_keys", []):
+        if k in conn.order_log:
+            bad.append(("smuggled", f"bytes of a request body were handled as request /r/{k} (handled order {conn.order_log})"))
+    if drained and case.get("must_close") and not closed:
+        bad.append(("smuggled", "a request whose body could not be decoded was answered and the connection left open with the "
+                                "rest of its body unread"))
+    if conn.closed_at_invoked is not None and conn.invoked > conn.closed_at_invoked:
+        bad.append(("after-close", f"close() was called while request #{conn.closed_at_invoked - 1} was in flight; afterwards "
+                                   f"{conn.invoked - conn.closed_at_invoked} queued pipelined request(s) were still started"))
     if conn.runaway:
         bad.append(("order", f"runaway: more than {conn.invoke_limit} handler invocations on one connection; the same requests are "
                              f"handled again and again (handled order starts {conn.order_log[:12]})"))
@@ -647,6 +703,7 @@ def oracle(conn: Conn, expect_heads: int | None, drained: bool):
 def run_impl(case, shadow=True):
     conn = Conn(case["beh"], ka=case.get("ka", KA), linger=case.get("linger", LINGER), shadow=shadow,
                 read_bufsize=case.get("read_bufsize"), honour_pause=not case.get("nopause", False))
+    conn.case = case
     try:
         for st in case["steps"]:
             conn.stimulus(st)
@@ -1051,6 +1108,111 @@ def gen_pause_case(rng, fixed=None):
             "read_bufsize": bufsize, "nopause": nopause}
 
 
+def _ws_frame(text: bytes) -> bytes:
+    mask = b"\x11\x22\x33\x44"
+    return b"\x81" + bytes((0x80 | len(text),)) + mask + bytes(b ^ mask[i % 4] for i, b in enumerate(text))
+
+
+def _handshake(i):
+    return (f"GET /r/{i} HTTP/1.1\r\nHost: x\r\nConnection: Upgrade\r\nUpgrade: websocket\r\n"
+            "Sec-WebSocket-Version: 13\r\nSec-WebSocket-Key: dGhlIHNhbXBsZSBub25jZQ==\r\n\r\n").encode()
+
+
+def _ignored_upgrade(i, token="h2c"):
+    return (f"GET /r/{i} HTTP/1.1\r\nHost: x\r\nConnection: Upgrade\r\nUpgrade: {token}\r\n\r\n").encode()
+
+
+def gen_ws_case(rng, fixed=None):
+    """Requests (plain / with an Upgrade token the server ignores / declined websocket upgrades) pipelined AHEAD of a
+    WebSocket handshake that the handler accepts, with bytes behind the handshake: masked text frames or an HTTP look-alike."""
+    if fixed is not None:
+        kinds, tail_kind, layout, block0 = fixed
+    else:
+        kinds = [rng.choice(["plain", "h2c", "h2c", "other"]) for _ in range(rng.randint(0, 3))]
+        tail_kind = rng.choice(["frames", "frames", "lookalike", "none"])
+        layout = rng.choice(["one", "tail-own", "cut"])
+        block0 = rng.random() < 0.5
+    beh, data, i = {}, b"", 0
+    for k in kinds:
+        data += _plain(i) if k == "plain" else _ignored_upgrade(i, "h2c" if k == "h2c" else rng.choice(["foo", "TLS/1.0", "h2c, bar"]))
+        i += 1
+    if kinds and block0:
+        beh["0"] = {"kind": "ok", "block": True}
+    data += _handshake(i)
+    beh[str(i)] = {"kind": "ws"}
+    case = {"suite": "ws", "beh": beh, "ka": KA, "linger": LINGER, "nreq": i + 1}
+    if tail_kind == "frames":
+        texts = ["f%d" % j for j in range(rng.randint(1, 3))]
+        tail = b"".join(_ws_frame(t.encode()) for t in texts)
+        case["ws_texts"] = texts
+    elif tail_kind == "lookalike":
+        tail = b"GET /r/666 HTTP/1.1\r\nHost: x\r\n\r\n"
+        case["ws_junk"] = True
+        case["forbidden_keys"] = [666]
+    else:
+        tail = b""
+    if layout == "one":
+        reads = [data + tail]
+    elif layout == "tail-own":
+        reads = [data, tail] if tail else [data]
+    else:
+        reads = cut(rng, data + tail, 3)
+    steps = [["data", r.hex()] for r in reads if r]
+    steps.insert(rng.randint(1, len(steps)), ["rel"])
+    steps.append(["rel"])
+    case["steps"] = steps
+    return case
+
+
+def gen_latebad_case(rng):
+    """Malformed bytes arriving in a LATER read while a keep-alive request is still being handled: every request is
+    HTTP/1.1 keep-alive without body, handlers only answer (200/404), nothing else can close the connection, so the
+    400 must be the last response and the connection must close."""
+    n = rng.randint(1, 4)
+    beh = {"0": {"kind": rng.choice(["ok", "http"]), "block": True}}
+    for i in range(1, n):
+        if rng.random() < 0.4:
+            beh[str(i)] = {"kind": rng.choice(["ok", "http"]), "block": rng.random() < 0.5}
+    first = b"".join(_plain(i) for i in range(n))
+    bad = rng.choice(BAD_ELEMENTS[:8] + [BAD_ELEMENTS[10]])
+    steps = [["data", first.hex()], ["data", bad.hex()]] + [["rel"]] * n
+    return {"suite": "latebad", "beh": beh, "steps": steps, "ka": KA, "linger": LINGER, "nreq": n, "expect_400_last": True}
+
+
+def gen_badenc_case(rng):
+    """A body with a content coding that fails to decode on its first bytes, split over two reads; the rest of the announced
+    body spells an HTTP request.  Whatever the handler does, that request must never be served and the connection must not stay open."""
+    smuggled = b"GET /r/666 HTTP/1.1\r\nHost: x\r\n\r\n"
+    junk = bytes(rng.randrange(1, 255) for _ in range(rng.randint(4, 12)))
+    if junk[:2] in (b"\x1f\x8b", b"\x78\x9c", b"\x78\x01", b"\x78\xda"):
+        junk = b"\x00" + junk
+    body = junk + smuggled
+    head = (f"POST /r/0 HTTP/1.1\r\nHost: x\r\nContent-Encoding: {rng.choice(['gzip', 'deflate'])}\r\n"
+            f"Content-Length: {len(body)}\r\n\r\n").encode()
+    beh = {"0": {"kind": rng.choice(["ok", "ok", "http", "read", "fclose", "stream"])}}
+    if rng.random() < 0.5:
+        beh["0"]["block"] = True
+    k = rng.randint(2, len(junk))
+    steps = [["data", (head + body[:k]).hex()]]
+    if rng.random() < 0.5:
+        steps.append(["rel"])
+    steps.append(["data", body[k:].hex()])
+    steps += [["rel"], ["tick", rng.choice([0, 1, 11])]]
+    return {"suite": "badenc", "beh": beh, "steps": steps, "ka": KA, "linger": rng.choice([LINGER, 0]), "nreq": 1,
+            "forbidden_keys": [666], "must_close": True}
+
+
+def gen_shutdown_case(rng):
+    """close() (Server.pre_shutdown) while a request is in flight and more are queued: the one in flight is answered,
+    no queued request may be started afterwards."""
+    n = rng.randint(2, 6)
+    beh = {"0": {"kind": rng.choice(["ok", "http", "stream"]), "block": True}}
+    steps = [["data", b"".join(_plain(i) for i in range(n)).hex()], ["close"], ["rel"], ["rel"]]
+    if rng.random() < 0.3:
+        steps.insert(1, ["data", _plain(n).hex()])
+    return {"suite": "shutdown", "beh": beh, "steps": steps, "ka": KA, "linger": LINGER, "nreq": n}
+
+
 def special_fixed_cases(rng):
     out = [gen_upgrade_case(rng, fixed=f) for f in (
         [[True, False, False], [True]], [[True, False], [False], [True]], [[True, False, False], [True, False]],
@@ -1059,6 +1221,10 @@ def special_fixed_cases(rng):
               (31, 4000, 9000, 3, False, "ok"), (32, 2500, 5000, 2, False, "read"), (30, 2049, 5000, 35, False, "read"),
               (0, 0, 500, 0, True, "read")):
         out.append(gen_pause_case(rng, fixed=f))
+    for f in ((["h2c"], "frames", "one", False), (["h2c"], "frames", "tail-own", True), (["h2c"], "lookalike", "one", False),
+              (["plain"], "frames", "one", False), ([], "frames", "one", False), (["h2c", "plain"], "lookalike", "tail-own", True),
+              (["other", "h2c"], "frames", "one", True)):
+        out.append(gen_ws_case(rng, fixed=f))
     # a transport that cannot pause: a burst that fills the queue behind a blocked handler, then one request per read
     steps = [["data", b"".join(_plain(i) for i in range(33)).hex()]] + [["data", _plain(i).hex()] for i in range(33, 75)] + [["rel"]]
     out.append({"suite": "pause", "beh": {"0": {"kind": "ok", "block": True}}, "steps": steps, "ka": KA, "linger": LINGER,
@@ -1075,12 +1241,13 @@ def suite_special(ctx):
     for name in sorted(os.listdir(cpath)) if os.path.isdir(cpath) else []:
         payload = json.load(open(os.path.join(cpath, name)))
         c = payload.get("case", payload)
-        if c.get("suite") in ("upgrade", "pause"):
+        if c.get("suite") in ("upgrade", "pause", "ws", "latebad", "badenc", "shutdown"):
             cases.append(c)
     cases += special_fixed_cases(rng)
-    n = 150 if ctx.quick else 3000
+    n = 240 if ctx.quick else 4800
+    gens = (gen_upgrade_case, gen_pause_case, gen_ws_case, gen_latebad_case, gen_badenc_case, gen_shutdown_case)
     for k in range(n):
-        cases.append(gen_upgrade_case(rng) if k % 2 == 0 else gen_pause_case(rng))
+        cases.append(gens[k % len(gens)](rng))
     for c in cases:
         r = run_impl(c, shadow=False)
         ctx.case((c["suite"], tuple(r["snaps"])), nontrivial=r["complete"] > 0)
